@@ -168,27 +168,27 @@ type Explorer struct {
 	T    *Terms
 	Opts Opts
 
-	mem     map[int]*Term // addr term ID -> content
-	cells   map[int]*Term // addr term ID -> addr term
-	etrail  []envTrail
-	mtrail  []memTrail
-	facts   map[int]bool
-	known   map[int]*Term // term ID -> constant it is known to equal
-	bounds  map[int]bound // term ID -> interval learnt from literals
+	mem      map[int]*Term // addr term ID -> content
+	cells    map[int]*Term // addr term ID -> addr term
+	etrail   []envTrail
+	mtrail   []memTrail
+	facts    map[int]bool
+	known    map[int]*Term // term ID -> constant it is known to equal
+	bounds   map[int]bound // term ID -> interval learnt from literals
 	inOnFact bool
 	notes    map[int]*Term // rule-defined relation attached to a term (undone on backtracking)
-	depth    int // prover recursion depth
-	ftrail  []factTrail
-	events  []Event
-	lits    []Lit
-	blocks  []*ssa.BasicBlock
-	counter int // instance counter (calls, opaques, versions)
-	epoch   int // map epoch
-	paths   int
-	cb      func(*Path)
-	err     error
-	loops   map[*ssa.Function]*loopInfo
-	allocN  map[*ssa.Alloc]int
+	depth    int           // prover recursion depth
+	ftrail   []factTrail
+	events   []Event
+	lits     []Lit
+	blocks   []*ssa.BasicBlock
+	counter  int // instance counter (calls, opaques, versions)
+	epoch    int // map epoch
+	paths    int
+	cb       func(*Path)
+	err      error
+	loops    map[*ssa.Function]*loopInfo
+	allocN   map[*ssa.Alloc]int
 }
 
 func NewExplorer(p *Prog) *Explorer {
